@@ -306,6 +306,12 @@ func (maps *trackedMaps) processUnfiltered(ctx context.Context, ef *Filter, filt
 				v.SetMapIndex(key, f)
 
 			case fkind == reflect.Map:
+				if _, ok := maps.getTracked(field.Pointer()); ok {
+					// this map is tracked itself (one of its keys was tagged):
+					// it is filtered on its own turn, with its already
+					// filtered keys left alone.
+					continue
+				}
 				newMaps, err := newTrackedMaps(&tMap{value: field})
 				if err != nil {
 					return fmt.Errorf("%s: unable to filter map: %w", op, err)
